@@ -92,16 +92,19 @@ def _worker_body(pid, tier, wseed, n_examples, part):
 
 
 # --------------------------------------------------------------------------- shrinking
-def ddmin(trace, run, clause, key="acts", max_runs=800):
-    """Trace-level delta debugging over trace[key] keeping `violation` of the same clause."""
+def ddmin(trace, run, clause, key="acts", max_runs=800, in_domain=None):
+    """Trace-level delta debugging over trace[key] keeping `violation` of the same clause
+    (and, when `in_domain` is given, membership of the generated domain)."""
     runs = [0]
 
     def bad(acts):
         if runs[0] >= max_runs:
             return False
-        runs[0] += 1
         t = dict(trace)
         t[key] = acts
+        if in_domain is not None and not in_domain(t):
+            return False
+        runs[0] += 1
         try:
             out = run(t)
         except Exception:
@@ -315,7 +318,7 @@ def _main_campaign(prop, pid, tier, seed, t0):
         note = ""
         if isinstance(tr, dict) and isinstance(tr.get("acts"), list):
             try:
-                tr2, nruns = ddmin(tr, run, out["clause"])
+                tr2, nruns = ddmin(tr, run, out["clause"], in_domain=getattr(prop, "in_domain", None))
                 out2 = run(tr2)
                 if out2["status"] == "violation" and out2["clause"] == out["clause"]:
                     tr, out, note = tr2, out2, "shrunk by trace-level ddmin in %d replays" % nruns
